@@ -87,7 +87,7 @@ T = {
   tech='property-based testing (Hypothesis) against an exact oracle + recorded-call invariant'),
 }
 
-CLAIMED = ['C05', 'C06', 'C07', 'C08', 'C09', 'C10', 'C11', 'C12', 'C13', 'C14', 'C15', 'C16', 'C17', 'C18']
+CLAIMED = ['C%02d' % i for i in range(1, 20)]
 PENDING = 'check built but not yet registered in this revision (calibration / multi-seed verification in progress)'
 
 
